@@ -9,6 +9,9 @@ def nontrivial(req, obs):
     if f[0] == "C18.cross":
         # accepted by at least the HLSL flavours, with at least one resource and one pipeline
         return len(f) > 5 and "dx=ok" in f[5] and f[3] != "" and f[4] != ""
+    if f[0] == "C18.mode":
+        # accepted by the HLSL flavours with at least one declared resource (no-pipeline mode: bindings without stages)
+        return len(f) > 6 and "dx=ok" in f[6] and f[4] != ""
     if f[0] == "C18.annot":
         return "{dx:" in obs
     if f[0] == "C18.simplify":
@@ -28,7 +31,7 @@ def finding_key(req, obs, detail):
     # the harness tags a name difference that is wholly explained by a declared name being a reserved word of only one of
     # the two target languages (decided from the RESERVED_NAMES tables of the source tree); anything else keeps its own key
     m = re.match(r"FAIL:binding-name-reserved-in-one-target:(hlsl|msl|both): ", detail or "")
-    if f[0] == "C18.cross" and m:
+    if f[0] in ("C18.cross", "C18.mode") and m:
         return f"binding-name-reserved-in-one-target:{m.group(1)}"
     return req
 
@@ -53,6 +56,16 @@ def shrink(req):
                 yield "\t".join([f[0], f[1], variant + "~" + ".".join(have + [c]), "", "", ""])
         if variant != "plain" and not variant.startswith("reserved"):
             yield "\t".join([f[0], f[1], "plain" + ("~" + drops if drops else ""), "", "", ""])
+    # C18.mode requests are (seed, variant~drops, mode): the same drops; the harness recomputes the other fields
+    if f[0] == "C18.mode" and len(f) >= 4:
+        variant, _, drops = f[2].partition("~")
+        have = [d for d in drops.split(".") if d]
+        cands = ["h", "s"] + [f"p{i}" for i in range(4)] + [f"r{i}" for i in range(8)]
+        for c in cands:
+            if c not in have:
+                yield "\t".join([f[0], f[1], variant + "~" + ".".join(have + [c]), f[3], "", "", ""])
+        if variant != "plain" and not variant.startswith("reserved") and not variant.startswith("wide"):
+            yield "\t".join([f[0], f[1], "plain" + ("~" + drops if drops else ""), f[3], "", "", ""])
 
 
 def search(ctx):
@@ -60,6 +73,10 @@ def search(ctx):
     define / test / expand one macro under every directive"""
     # the fifth configuration's define list is read through front-end verdicts: fails when MetalBytecode hides them
     out = ["C18.defines\tmtlb"]
+    # the other modes of compile(): no pipeline selected / one named pipeline (seed C18-7)
+    for seed in range(1, 12):
+        for v in ("plain", "state", "typedef-array", "wide", "wide-rich"):
+            out.append(f"C18.mode\t{seed * 7919}\t{v}\tnone\t\t\t")
     variants = ["plain", "state", "pp-guard", "pp-macros", "pp-version", "unbounded", "reserved-matrix", "reserved-cb",
                 "reserved-kernel", "reserved-cb-main", "reserved-double", "entry-texture", "typedef-array", "nonresource", "nonresource-rq",
                 "e-pp-if", "e-parse-mid", "e-type-undef-mid", "e-pipe-entry", "layout-trap", "include", "api-define"]
@@ -95,6 +112,9 @@ SPEC = {
         "descriptor_tables_equal", "kind_count_from_declaration", "binding_kinds_counts_shared", "dx_vk_bindings_shared",
         "reflected_kinds_are_resources", "non_resource_global_refused_on_every_target",
         "binding_names_kinds_counts_shared_partial", "binding_names_not_shared",
+        "bindings_reported_without_pipeline", "bindings_mode_independent", "binding_kinds_counts_shared_in_every_mode",
+        "binding_names_kinds_counts_shared_in_every_mode_partial", "dx_vk_bindings_shared_in_every_mode",
+        "all_targets_same_stage_kinds_sizes_in_every_mode",
         "simplify_cbuffers_as_modelled", "msl_reflects_simplified_module", "kinds_counts_shared_through_simplify",
         "bindings_shared_through_simplify_partial", "cbuffer_block_one_binding_everywhere",
         "hlsl_target_sites_as_modelled", "hlsl_exports_differ_only_in_annotations", "dx_vk_differ_only_in_annotations",
@@ -125,6 +145,8 @@ SPEC = {
             "chain error; its define list is read back through front-end verdicts of probing files); plus generated "
             "object-like-macro / conditional-directive programs run through the real preprocessor with each target's observed "
             "define list and compared with the Lean macro model (a quarter of them mention RSSL_TARGET_* on purpose); "
+            "every cross program is compiled again with no_pipeline_mode() and with pipeline_name(<one of its pipelines>) on "
+            "the five configurations and judged by the same oracle in that mode (C18.mode); "
             "non-trivial = accepted file with resources and pipelines / preprocessor program with macros that produces output",
     "level_text": "Proof of the logic plus source inventories: (1) for a compact executable model of the preprocessor (object-like "
                   "macros with the disabled-set recursion rule, #define/#undef table discipline, the condition chain with its "
@@ -165,7 +187,16 @@ SPEC = {
                   "(`front_end_diagnostic_same_for_every_target`); MetalBytecode without tool chain has the closed form front "
                   "diagnostic / no pipeline / first pipeline's Metal export error / MetalCompilerNotFound "
                   "(`metal_bytecode_without_toolchain`), which the model executable uses to predict the fifth verdict of every "
-                  "C18.cross case from the Msl run. Covered mode: all pipelines (no pipeline_name / no_pipeline_mode in the step model). "
+                  "C18.cross case from the Msl run. Covered mode of the step model: all pipelines. "
+                  "(8) The other modes of compile() - one named pipeline, no_pipeline_mode() (module exported with "
+                  "selected_pipeline = None) - are covered for the reflection: both generate_module functions are read on "
+                  "every run for whether the analyse_bindings loop runs, and its result is returned, independently of a "
+                  "selected pipeline (`bindings_reported_without_pipeline`, falsified by seed C18-7), `bindingsInMode` "
+                  "interprets the extracted facts, and the target-independence theorems for kinds / counts (full), names "
+                  "(partial, same hypothesis), DirectX-vs-Vulkan (full) and stage kinds / sizes (full) are restated with the "
+                  "mode universally quantified (`*_in_every_mode`); every generated program is also compiled in no-pipeline "
+                  "mode and for one named pipeline on all five configurations (stream C18.mode: model predicts the four "
+                  "reports, the oracle applies the property in that mode). "
                   "Not modelled: function-like macros / ## / "
                   "#include (C12's model; exercised by the harness variants include / pp-macros / ctl-concat).",
     "trusted_base": [
@@ -181,6 +212,10 @@ SPEC = {
         "tools/gens/c18.py step order: regex marks for the steps of compile() / build_pipeline() sorted by source position, "
         "brace matching for the match arms and the MetalBytecode guard; Model/CompileSteps.lean says what each step does "
         "(hand-written, tied by the predicted fifth verdict in C18.cross: front / back / tool per case)",
+        "tools/gens/c18.py hlslBindingsReportedWithoutPipeline / mslBindingsReportedWithoutPipeline: text facts about the two "
+        "generate_module functions and msl generate_pipeline (call not under a test of selected_pipeline, Option parameter, "
+        "analyse_bindings loop first, its result returned); Model.Targets.bindingsInMode says what a false fact would mean "
+        "(empty reflection without a pipeline), tied by the C18.mode correspondence stream",
         "modelling assumption: parse / type_check / check_layout are functions of the token stream only (they take no target "
         "argument: frontShape.frontEndDoesNotNameTarget + frontEndArgReads)",
     ],
